@@ -105,5 +105,14 @@ Definition checker19 (c : case) : bool :=
   | CaseSites _ sites => sites_known sites
   end.
 
-Definition mismatches (cs : list case) : list Z := map case_id (filter (fun c => negb (agrees c)) cs).
+(* what an execution leaves behind is C19's subject (Corr/C19.v judges the same cases with the leak flag) *)
+Definition no_leak (c : case) : case :=
+  match c with
+  | CaseHTTP id sc cl at_ ins st ec b s v d r both op cl' _ => CaseHTTP id sc cl at_ ins st ec b s v d r both op cl' false
+  | CaseGRPC id codes calls ret a m r _ => CaseGRPC id codes calls ret a m r false
+  | CaseOverlap id k at_ live lo ao _ => CaseOverlap id k at_ live lo ao false
+  | c => c
+  end.
+
+Definition mismatches (cs : list case) : list Z := map case_id (filter (fun c => negb (agrees (no_leak c))) cs).
 Definition checker_failures (cs : list case) : list Z := map case_id (filter (fun c => negb (checker18 c)) cs).
